@@ -3,8 +3,9 @@ import hashlib
 import itertools
 import json
 import random
+import shutil
 
-from ..common import (REPO, Report, cbool, clist, cstr, decide, esc, run_case_shards, run_impl,
+from ..common import (REPO, WORK, Report, cbool, clist, cstr, decide, esc, run_case_shards, run_impl,
                       standard_proof_part, write_replay)
 
 PROP = "C17"
@@ -238,7 +239,7 @@ def inject_domain_conflict(rng, dom, views):
         return None
     options = []
     for sec in ("preds", "consts", "actions", "types"):
-        for name in set.union(*[v[sec] for v in views]):
+        for name in sorted(set.union(*[v[sec] for v in views])):
             holders = [i for i in range(n) if name in views[i][sec]]
             if len(holders) >= 2:
                 options.append((sec, name, holders))
@@ -368,6 +369,7 @@ def split_problem(rng, prob, n):
 
 def render_problem(rng, prob, view=None, overrides=None):
     ov = overrides or {}
+    whole = view is None
     if view is None:
         view = {"objs": {o for o, _ in prob["objs"]}, "facts": prob["facts"], "fluents": prob["fluents"],
                 "goals": prob["goals"], "ngoals": prob["ngoals"]}
@@ -381,7 +383,7 @@ def render_problem(rng, prob, view=None, overrides=None):
     rng.shuffle(init)
     goal = list(view["goals"]) + list(view["ngoals"])
     rng.shuffle(goal)
-    if goal and rng.random() < 0.15:
+    if goal and not whole and rng.random() < 0.15:
         goal.append(rng.choice(goal))   # a goal repeated inside one file
     return "(define (problem %s) (:domain %s)\n(:objects %s)\n(:init %s)\n(:goal (and %s))\n)\n" % (
         prob["name"], prob["domain"], otxt, " ".join(init), " ".join(goal))
@@ -433,7 +435,7 @@ def orders_for(rng, names, tier):
 
 
 def generated_directories(rng, tier):
-    ndirs = 40 if tier == "quick" else 260
+    ndirs = 150 if tier == "quick" else 1000
     for k in range(ndirs):
         dom = gen_domain(rng)
         n = rng.choice([1, 2, 2, 3, 3, 4])
@@ -565,6 +567,8 @@ def nontrivial_maps(dumps, sections):
 # ------------------------------------------------------------------------------------------------
 def run(args):
     rep = Report(PROP, args.tier, args.seed)
+    if not args.replay:
+        shutil.rmtree(WORK / PROP / "replays", ignore_errors=True)
     standard_proof_part(rep, PROP)
     rng = random.Random(args.seed * 104729 + 17)
     if args.replay:
